@@ -36,9 +36,10 @@ def FieldsOKn (P : Prog) (tm : Recs) (n : Nat) : Prop :=
 def StmtSpec (P : Prog) (C : Ctx) (r : SRes) : State → Ctl → Prop :=
   fun st' ctl => match ctl with
     | .normal σ' => ∃ Γ', r.out = some Γ' ∧ StoreOK P st'.heap C.decl Γ' σ'
-    | .ret v => hasTy P st'.heap v C.ret
+    | .ret v σ' => hasTy P st'.heap v C.ret ∧ ∃ Γ', Γ' ∈ r.rets ∧ StoreOK P st'.heap C.decl Γ' σ'
     | .brk σ' => ∃ Γ', Γ' ∈ r.brks ∧ StoreOK P st'.heap C.decl Γ' σ'
     | .cont σ' => ∃ Γ', Γ' ∈ r.conts ∧ StoreOK P st'.heap C.decl Γ' σ'
+    | .exc f σ' => Benign f ∧ ∃ Γ', Γ' ∈ r.excs ∧ StoreOK P st'.heap C.decl Γ' σ'
 
 def StmtOK (P : Prog) (tm : Recs) (n : Nat) : Prop :=
   ∀ (k : Nat) (C : Ctx) (Γ : Env) (s : Stmt) (r : SRes) (σ : Store) (st : State), C.P = P →
@@ -116,9 +117,10 @@ theorem callBody_ok (hs : StmtOK P tm n) {self : Option Nat} {fd : FuncDef} {vs 
     have : fd.ret = [.none] := hend (by rw [hΓ]; rfl)
     apply sat_pure
     rw [this]; exact ⟨.none, by simp, by simp [hasAtom]⟩
-  | ret v => exact sat_pure hspec
+  | ret v σ' => exact sat_pure hspec.1
   | brk σ' => obtain ⟨Γ', hm, _⟩ := hspec; rw [hb] at hm; simp at hm
   | cont σ' => obtain ⟨Γ', hm, _⟩ := hspec; rw [hc] at hm; simp at hm
+  | exc f σ' => exact sat_fail hspec.1
 
 /-! ## Dynamic method lookup -/
 
